@@ -57,6 +57,10 @@ var wireTags = [256]bool{
 	T_list:   true,
 }
 
+// maxTypeDepth bounds the nesting of a field type (pointers, lists, sets, maps): far beyond anything
+// the decoder's own depth limit lets through, and what stops a self-referential Go type
+const maxTypeDepth = 256
+
 var keywordTab = [256]string{
 	T_bool:   "bool",
 	T_i8:     "i8 byte",
@@ -231,7 +235,7 @@ func (t *Type) IsSimpleType() bool {
 
 func ParseType(vt reflect.Type, def string) (*Type, error) {
 	var i int
-	ret, err := doParseType(vt, def, &i, true)
+	ret, err := doParseType(vt, def, &i, true, 0)
 	if err != nil {
 		return nil, err
 	}
@@ -305,10 +309,15 @@ func mkMistyped(pos int, src string, tv string, tag Tag, vt reflect.Type) Syntax
 	}
 }
 
-func doParseType(vt reflect.Type, def string, i *int, allowPtrs bool) (*Type, error) {
+func doParseType(vt reflect.Type, def string, i *int, allowPtrs bool, depth int) (*Type, error) {
 	var tag Tag
 	var err error
 	var ret *Type
+
+	/* a Go type can nest itself without end (type M map[string]M needs no annotation) */
+	if depth > maxTypeDepth {
+		return nil, EType(vt, "type is nested too deeply")
+	}
 
 	/* dereference the pointer if possible */
 	if ret = newType(); vt.Kind() == reflect.Ptr {
@@ -321,7 +330,7 @@ func doParseType(vt reflect.Type, def string, i *int, allowPtrs bool) (*Type, er
 		}
 
 		/* parse the pointer element recursively */
-		if ret.V, err = doParseType(vt.Elem(), def, i, false); err != nil {
+		if ret.V, err = doParseType(vt.Elem(), def, i, false, depth+1); err != nil {
 			return nil, err
 		}
 
@@ -382,7 +391,7 @@ func doParseType(vt reflect.Type, def string, i *int, allowPtrs bool) (*Type, er
 		} else if def == "" {
 			return nil, ESetList(*i, def, et)
 		} else {
-			return doParseSlice(vt, et, def, i, ret)
+			return doParseSlice(vt, et, def, i, ret, depth)
 		}
 	}
 
@@ -420,7 +429,7 @@ func doParseType(vt reflect.Type, def string, i *int, allowPtrs bool) (*Type, er
 	}
 
 	/* parse the key type */
-	if ret.K, err = doParseType(vt.Key(), def, i, true); err != nil {
+	if ret.K, err = doParseType(vt.Key(), def, i, true, depth+1); err != nil {
 		return nil, err
 	}
 
@@ -439,7 +448,7 @@ func doParseType(vt reflect.Type, def string, i *int, allowPtrs bool) (*Type, er
 	}
 
 	/* parse the value type */
-	if ret.V, err = doParseType(vt.Elem(), def, i, true); err != nil {
+	if ret.V, err = doParseType(vt.Elem(), def, i, true, depth+1); err != nil {
 		return nil, err
 	}
 
@@ -463,7 +472,7 @@ func doParseType(vt reflect.Type, def string, i *int, allowPtrs bool) (*Type, er
 	return ret, nil
 }
 
-func doParseSlice(vt reflect.Type, et reflect.Type, def string, i *int, rt *Type) (*Type, error) {
+func doParseSlice(vt reflect.Type, et reflect.Type, def string, i *int, rt *Type, depth int) (*Type, error) {
 	var err error
 	var tok string
 
@@ -490,7 +499,7 @@ func doParseSlice(vt reflect.Type, et reflect.Type, def string, i *int, rt *Type
 	}
 
 	/* set or list element */
-	if rt.V, err = doParseType(et, def, i, true); err != nil {
+	if rt.V, err = doParseType(et, def, i, true, depth+1); err != nil {
 		return nil, err
 	}
 
